@@ -183,6 +183,8 @@ def random_op(rng, g, n_resizes: int) -> Dict[str, Any]:
         return dict(op=k, n=[rng.randint(1, 14) for _ in range(D)])
     if k == "narrow":
         d = rng.randrange(D)
+        if n[d] < 1:
+            return dict(op="pool", k=2, ceil=True)
         start = rng.randrange(n[d])
         return dict(op=k, dim=d, start=start, len=rng.randint(1, n[d] - start))
     if k == "roi":
